@@ -756,6 +756,16 @@ func mgMatrix() []*mgCmd {
 		}
 		out = append(out, base("cs", "config"))
 	}
+	// the requesting face named explicitly, as 0 and not at all, on both verbs: a route made one way is removed the other way
+	for _, pair := range [][2]string{{"none", "zero"}, {"zero", "none"}, {"zero", "zero"}, {"none", "none"}} {
+		for _, mod := range []string{"rib", "fib"} {
+			g1 := base(mod, map[string]string{"rib": "register", "fib": "add-nexthop"}[mod])
+			g1.FaceRole = pair[0]
+			g2 := base(mod, map[string]string{"rib": "unregister", "fib": "remove-nexthop"}[mod])
+			g2.FaceRole = pair[1]
+			out = append(out, g1, g2)
+		}
+	}
 	// a route with an expiration period, re-registered with another one and without one
 	for _, x := range []int{3000, 86400000, 0, 1} {
 		g := base("rib", "register")
